@@ -511,6 +511,11 @@ class BaseName:
             context = self._get_module_context().create_value(parent).as_context()
         else:
             context = self._name.parent_context
+            lambda_value = getattr(self._name, '_lambda_value', None)
+            if lambda_value is not None:
+                # The parent_context of a function value skips classes:
+                # continue with the context the lambda is written in.
+                context = self._get_module_context().create_context(lambda_value.tree_node)
 
         if context is None:
             return None
